@@ -412,6 +412,295 @@ func c17MapLiteral(s *source, e *emitter, rel, name, leanName string) {
 	e.stringList(leanName, "entries of `"+name+"` in "+rel, items)
 }
 
+// c17ByteFlow: for the function that hands bytes to its caller, where the returned bytes live.  Emits a typed record
+// (key/value pairs) read by GoZero.C17.siteOfFlow: the returned expression, its root identifier, how that identifier is
+// declared (var / assign / param), the scope of the root (local / param / package) and, for `x := init`, the root of
+// the initialiser with ITS scope (package = a package-level variable such as a pool; import; builtin; local), the number
+// of defers and each deferred call.  A buffer taken from package-level state, or given back while the result is still
+// in use, shows here as a different record.
+func c17ByteFlow(s *source, e *emitter, rel, goName, leanName string) {
+	fd := s.findFunc(rel, goName)
+	var items [][2]string
+	add := func(k, v string) { items = append(items, [2]string{k, strings.Join(strings.Fields(v), " ")}) }
+	if fd == nil {
+		e.errors = append(e.errors, "function "+goName+" not found in "+rel)
+	} else {
+		pkgVars := map[string]bool{}
+		imports := map[string]bool{}
+		if f := s.file(rel); f != nil {
+			for _, d := range f.Decls {
+				if gd, ok := d.(*ast.GenDecl); ok && gd.Tok == token.VAR {
+					for _, sp := range gd.Specs {
+						for _, id := range sp.(*ast.ValueSpec).Names {
+							pkgVars[id.Name] = true
+						}
+					}
+				}
+			}
+			for _, im := range f.Imports {
+				path := strings.Trim(im.Path.Value, "\"")
+				name := path[strings.LastIndex(path, "/")+1:]
+				if im.Name != nil {
+					name = im.Name.Name
+				}
+				imports[name] = true
+			}
+		}
+		root := func(x ast.Expr) string {
+			for {
+				switch y := x.(type) {
+				case *ast.CallExpr:
+					x = y.Fun
+				case *ast.SelectorExpr:
+					x = y.X
+				case *ast.ParenExpr:
+					x = y.X
+				case *ast.TypeAssertExpr:
+					x = y.X
+				case *ast.StarExpr:
+					x = y.X
+				case *ast.UnaryExpr:
+					x = y.X
+				case *ast.IndexExpr:
+					x = y.X
+				case *ast.SliceExpr:
+					x = y.X
+				case *ast.Ident:
+					return y.Name
+				default:
+					return "?"
+				}
+			}
+		}
+		params := map[string]bool{}
+		for _, fl := range fd.Type.Params.List {
+			for _, id := range fl.Names {
+				params[id.Name] = true
+			}
+		}
+		localVar := map[string]string{}    // name -> type source
+		localAssign := map[string]ast.Expr{} // name -> initialiser
+		defers := 0
+		var ret ast.Expr
+		ast.Inspect(fd.Body, func(n ast.Node) bool {
+			switch x := n.(type) {
+			case *ast.DeclStmt:
+				if gd, ok := x.Decl.(*ast.GenDecl); ok && gd.Tok == token.VAR {
+					for _, sp := range gd.Specs {
+						vs := sp.(*ast.ValueSpec)
+						for _, id := range vs.Names {
+							if vs.Type != nil {
+								localVar[id.Name] = s.src(vs.Type)
+							} else {
+								localVar[id.Name] = "?"
+							}
+						}
+					}
+				}
+			case *ast.AssignStmt:
+				if x.Tok == token.DEFINE {
+					for i, l := range x.Lhs {
+						if id, ok := l.(*ast.Ident); ok {
+							if i < len(x.Rhs) {
+								localAssign[id.Name] = x.Rhs[i]
+							} else {
+								localAssign[id.Name] = x.Rhs[0]
+							}
+						}
+					}
+				}
+			case *ast.DeferStmt:
+				defers++
+				add("defer", s.src(x.Call))
+			case *ast.ReturnStmt:
+				if len(x.Results) > 0 && !isNilIdent(x.Results[0]) {
+					ret = x.Results[0]
+				}
+			}
+			return true
+		})
+		scopeOf := func(name string) string {
+			switch {
+			case params[name]:
+				return "param"
+			case localVar[name] != "" || localAssign[name] != nil:
+				return "local"
+			case pkgVars[name]:
+				return "package"
+			case imports[name]:
+				return "import"
+			case name == "new" || name == "make" || name == "append":
+				return "builtin"
+			}
+			return "unknown"
+		}
+		if ret == nil {
+			e.errors = append(e.errors, goName+": no non-nil result returned")
+		} else {
+			r := root(ret)
+			add("return", s.src(ret))
+			add("root", r)
+			add("root-scope", scopeOf(r))
+			if ty, ok := localVar[r]; ok {
+				add("decl", "var")
+				add("type", ty)
+			} else if init, ok := localAssign[r]; ok {
+				add("decl", "assign")
+				add("init", s.src(init))
+				add("init-root", root(init))
+				add("init-root-scope", scopeOf(root(init)))
+			} else if params[r] {
+				add("decl", "param")
+			} else {
+				add("decl", "none")
+			}
+		}
+		add("defers", fmt.Sprint(defers))
+	}
+	e.printf("/-- where the bytes returned by `%s` (%s) live: typed flow record -/\ndef %s : List (String × String) := [", goName, rel, leanName)
+	for i, it := range items {
+		if i > 0 {
+			e.printf(",")
+		}
+		e.printf("\n  (%s, %s)", leanString(it[0]), leanString(it[1]))
+	}
+	e.printf("]\n\n")
+}
+
+// c17Forward: the DATA FLOW of a delegating function as a typed list of calls, in evaluation order: for every call that
+// is the right-hand side of an assignment, the initialiser of an `if`, an expression statement or the result of a
+// return (calls nested in arguments first), the callee and, per argument, ("param", i) the caller's own i-th
+// parameter, ("spread", i) its variadic parameter passed with `...`, ("result", k) the first result of call k,
+// ("other", 0) anything else.  GoZero.C17.fcallsOf / runFwd give the list its meaning for all arguments.
+func c17Forward(s *source, e *emitter, rel, goName, leanName string) {
+	fd := s.findFunc(rel, goName)
+	type call struct {
+		callee string
+		args   [][2]string
+	}
+	var calls []call
+	if fd == nil {
+		e.errors = append(e.errors, "function "+goName+" not found in "+rel)
+	} else {
+		paramIdx := map[string]int{}
+		variadic := ""
+		i := 0
+		for _, fl := range fd.Type.Params.List {
+			_, isVar := fl.Type.(*ast.Ellipsis)
+			for _, id := range fl.Names {
+				paramIdx[id.Name] = i
+				if isVar {
+					variadic = id.Name
+				}
+				i++
+			}
+		}
+		results := map[string]int{}
+		var doCall func(c *ast.CallExpr) int
+		var doExpr func(x ast.Expr)
+		doCall = func(c *ast.CallExpr) int {
+			var args [][2]string
+			for ai, a := range c.Args {
+				switch x := a.(type) {
+				case *ast.Ident:
+					if x.Name == variadic {
+						if c.Ellipsis.IsValid() && ai == len(c.Args)-1 {
+							args = append(args, [2]string{"spread", fmt.Sprint(paramIdx[x.Name])})
+						} else {
+							args = append(args, [2]string{"other", "0"})
+						}
+					} else if k, ok := results[x.Name]; ok {
+						args = append(args, [2]string{"result", fmt.Sprint(k)})
+					} else if pi, ok := paramIdx[x.Name]; ok {
+						args = append(args, [2]string{"param", fmt.Sprint(pi)})
+					} else {
+						args = append(args, [2]string{"other", "0"})
+					}
+				case *ast.CallExpr:
+					k := doCall(x)
+					args = append(args, [2]string{"result", fmt.Sprint(k)})
+				default:
+					doExpr(a)
+					args = append(args, [2]string{"other", "0"})
+				}
+			}
+			calls = append(calls, call{callee: s.src(c.Fun), args: args})
+			return len(calls) - 1
+		}
+		// calls hidden in other expressions (index expressions, &x, parentheses) are emitted in evaluation order too
+		doExpr = func(x ast.Expr) {
+			switch y := x.(type) {
+			case *ast.CallExpr:
+				doCall(y)
+			case *ast.IndexExpr:
+				doExpr(y.X)
+				doExpr(y.Index)
+			case *ast.ParenExpr:
+				doExpr(y.X)
+			case *ast.UnaryExpr:
+				doExpr(y.X)
+			case *ast.BinaryExpr:
+				doExpr(y.X)
+				doExpr(y.Y)
+			}
+		}
+		var walk func(st ast.Stmt)
+		walk = func(st ast.Stmt) {
+			switch x := st.(type) {
+			case *ast.BlockStmt:
+				for _, y := range x.List {
+					walk(y)
+				}
+			case *ast.AssignStmt:
+				if len(x.Rhs) == 1 {
+					if c, ok := x.Rhs[0].(*ast.CallExpr); ok {
+						k := doCall(c)
+						if id, ok := x.Lhs[0].(*ast.Ident); ok && id.Name != "_" && id.Name != "err" {
+							results[id.Name] = k
+						}
+					} else {
+						doExpr(x.Rhs[0])
+					}
+				}
+			case *ast.RangeStmt:
+				walk(x.Body)
+			case *ast.ExprStmt:
+				if c, ok := x.X.(*ast.CallExpr); ok {
+					doCall(c)
+				}
+			case *ast.IfStmt:
+				if x.Init != nil {
+					walk(x.Init)
+				}
+				doExpr(x.Cond)
+				walk(x.Body)
+				if x.Else != nil {
+					walk(x.Else)
+				}
+			case *ast.ReturnStmt:
+				for _, r := range x.Results {
+					if c, ok := r.(*ast.CallExpr); ok {
+						doCall(c)
+					}
+				}
+			}
+		}
+		walk(fd.Body)
+	}
+	e.printf("/-- data flow of `%s` in %s: calls in evaluation order with the origin of every argument -/\ndef %s : List (String × List (String × Nat)) := [", goName, rel, leanName)
+	for i, c := range calls {
+		if i > 0 {
+			e.printf(",")
+		}
+		var as []string
+		for _, a := range c.args {
+			as = append(as, "("+leanString(a[0])+", "+a[1]+")")
+		}
+		e.printf("\n  (%s, [%s])", leanString(c.callee), strings.Join(as, ", "))
+	}
+	e.printf("]\n\n")
+}
+
 func init() {
 	register("C17", func(s *source, e *emitter) {
 		const cf = "core/conf/config.go"
@@ -505,5 +794,32 @@ func init() {
 		c17Detail(s, e, cf, "LoadConfigFromJsonBytes", "cLoadConfigJson")
 		c17Detail(s, e, cf, "LoadConfigFromYamlBytes", "cLoadConfigYaml")
 		c17Conds(s, e, cf, "getTagName", "tagNameCond")
+		// round 5: where the bytes of a conversion live, and the typed data flow of every delegating entry point
+		c17ByteFlow(s, e, ef, "encodeToJSON", "encodeBufFlow")
+		c17Forward(s, e, ef, "YamlToJson", "fwdEYamlToJson")
+		c17Forward(s, e, ef, "TomlToJson", "fwdETomlToJson")
+		c17Forward(s, e, yf, "UnmarshalYamlBytes", "fwdYamlBytes")
+		c17Forward(s, e, yf, "UnmarshalYamlReader", "fwdYamlReader")
+		c17Forward(s, e, tf, "UnmarshalTomlBytes", "fwdTomlBytes")
+		c17Forward(s, e, tf, "UnmarshalTomlReader", "fwdTomlReader")
+		c17Forward(s, e, jf, "UnmarshalJsonBytes", "fwdJsonBytes")
+		c17Forward(s, e, jf, "UnmarshalJsonReader", "fwdJsonReader")
+		c17Forward(s, e, jf, "UnmarshalJsonMap", "fwdJsonMap")
+		c17Forward(s, e, jf, "getJsonUnmarshaler", "fwdGetJsonUnmarshaler")
+		c17Forward(s, e, jf, "unmarshalJsonBytes", "fwdUnmJsonBytes")
+		c17Forward(s, e, jf, "unmarshalJsonReader", "fwdUnmJsonReader")
+		c17Forward(s, e, cf, "LoadFromYamlBytes", "fwdConfYaml")
+		c17Forward(s, e, cf, "LoadFromTomlBytes", "fwdConfToml")
+		c17Forward(s, e, cf, "Load", "fwdConfLoad")
+		c17Forward(s, e, cf, "LoadFromJsonBytes", "fwdConfLoadJson")
+		c17Forward(s, e, cf, "FillDefault", "fwdConfFillDefault")
+		c17Forward(s, e, cf, "LoadConfig", "fwdConfLoadConfig")
+		c17Forward(s, e, cf, "MustLoad", "fwdConfMustLoad")
+		c17Forward(s, e, cf, "LoadConfigFromJsonBytes", "fwdConfLoadConfigJson")
+		c17Forward(s, e, cf, "LoadConfigFromYamlBytes", "fwdConfLoadConfigYaml")
+		c17Forward(s, e, xf, "Unmarshal", "fwdXUnmarshal")
+		c17Forward(s, e, xf, "UnmarshalFromString", "fwdXUnmarshalFromString")
+		c17Forward(s, e, xf, "UnmarshalFromReader", "fwdXUnmarshalFromReader")
+		c17Forward(s, e, xf, "unmarshalUseNumber", "fwdXUseNumber")
 	})
 }
